@@ -272,7 +272,9 @@ let s_router g obs =
   let nch = List.length r.r_chans in
   let spec = String.concat ";" (List.init nch (fun c -> show (expected ops N0 None (n_of_int c)) (expected_closed ops N0 false false (n_of_int c)))) in
   (model, if obs = spec then "ok" else "bad:subscriber-did-not-get-exactly-its-events-in-order")
-let s_routerconc _g obs = ("ok", if obs = "ok" then "ok" else "bad:concurrent-unsubscribe-" ^ (List.hd (String.split_on_char ':' obs)))
+let s_routerconc g obs =
+  let what = if (try g "k" = "publishers" with _ -> false) then "bad:concurrent-publishers-" else "bad:concurrent-unsubscribe-" in
+  ("ok", if obs = "ok" then "ok" else what ^ (List.hd (String.split_on_char ':' obs)))
 
 (* ---- C19: EUI allocator ---- *)
 let s_keygen g obs =
